@@ -168,7 +168,7 @@ pub fn mul4x4(m1: &[Float; 16], m2: &[Float; 16]) -> [Float; 16] {
 impl std::ops::MulAssign<Self> for Transform {
     fn mul_assign(&mut self, other: Self) {
         self.elements = mul4x4(&self.elements, &other.elements);
-        self.inv_elements = mul4x4(&self.inv_elements, &other.inv_elements);
+        self.inv_elements = mul4x4(&other.inv_elements, &self.inv_elements);
     }
 }
 
